@@ -1,6 +1,6 @@
 SPECIFICATION Spec
 CONSTANTS
-  Cons <- ExprReduced
+  Cons <- ExprTiny
   Terms = {"semi"}
   MaxE = 4
   MaxS = 1
